@@ -63,7 +63,19 @@ def d1(chk, prog):
             okr = g[0] == w[0] and same(g[1], w[1]) and same(g[2], w[2]) and g[3] == w[3] and g[4] == w[4] and g[5] is w[5] and same(g[6], Fr(1, 2)) and same(g[7], 30) and same(g[8], 10)
             tb.cell(okr, dict(row=[repr(x) for x in g], want=[repr(x) for x in w]))
         tb.cell(ok, dict(rows=len(out), want_rows=len(want), note="the <NON_REF> placeholder, the record without ALT and the REJECTed record give no row"))
-    tb.done("VCF records are not read to (chromosome, 0-based start, end) rows, one per real alternate allele")
+    # a tumour / normal pair, in either column order (and with a third, unrelated sample in the file): each sample's own genotype fields, found by name
+    for order in (("T", "N"), ("N", "T"), ("X", "N", "T"), ("T", "X", "N")):
+        W.reset()
+        it = Interp(prog)
+        fields = {"T": {"GT": (0, 1), "DP": 30, "AD": (20, 10)}, "N": {"GT": (0, 0), "DP": 44, "AD": (43, 1)}, "X": {"GT": (1, 1), "DP": 7, "AD": (0, 7)}}
+        smp2 = {k: fields[k] for k in order}
+        out = tb.guard(lambda: list(it.run(fi.qn, [[rec(s[0], "A", ["C"], {}, smp2)], "T", "N", True])), f"sample columns {order}")
+        if out is None:
+            continue
+        g = out[0] if len(out) == 1 else ()
+        okp = len(g) == 12 and same(g[6], Fr(1, 2)) and same(g[7], 30) and same(g[8], 10) and same(g[9], 0) and same(g[10], 44) and same(g[11], 1)
+        tb.cell(okp, dict(sample_columns=list(order), tumour="T", normal="N", row=[repr(x) for x in g], want="zygosity 1/2, depth 30, alt 10; normal: 0, 44, 1"))
+    tb.done("VCF records are not read to (chromosome, 0-based start, end) rows, one per real alternate allele, with each sample's own genotype fields")
 
 
 def d2(chk, prog):
